@@ -117,10 +117,16 @@ def apply2(name, mode, a, b):
     return getattr(bi, name)(a, b)
 
 
-def apply3(name, mode, a, args):
+def apply3(name, mode, a, args, clip=None):
+    kw = {}
+    if clip is not None:                 # optional string-mode argument of the range-mapping family
+        if clip[0] == 'pos':
+            args = list(args) + [clip[1]]
+        elif clip[0] == 'kw':
+            kw = {'clip': clip[1]}
     if mode == 'meth':
-        return getattr(a, name)(*args)
-    return getattr(bi, name)(a, *args)
+        return getattr(a, name)(*args, **kw)
+    return getattr(bi, name)(a, *args, **kw)
 
 
 def build(e, fns):
@@ -134,7 +140,7 @@ def build(e, fns):
     if t == 'bin1':                      # second argument left to its default
         return apply1(e[1], e[2], build(e[3], fns))
     if t == 'nar':
-        return apply3(e[1], e[2], build(e[3], fns), [build(i, fns) for i in e[4]])
+        return apply3(e[1], e[2], build(e[3], fns), [build(i, fns) for i in e[4]], e[5] if len(e) > 5 else None)
     if t == 'pseq':            # enclosing pattern: the items are EMBEDDED
         return Pseq([build(i, fns) for i in e[1]], e[2])
     if t == 'pn':
